@@ -53,6 +53,10 @@ def op_cases(tier):
     for loc in locs:
         for at in ("path", "both"):
             out.append(ops.op("get", "/a/{id}" if loc == "path" else "/a", [P("id", loc, loc == "path", "string", at)]))
+    # path variables that no parameter declares (the loader only warns), alone and next to declared optional / required parameters
+    for extra in ([], [P("expand", "query", False, "boolean")], [P("q", "query", True, "string")], [P("X-H", "header", False, "string"), P("q", "query", True, "string")]):
+        out.append(ops.op("get", "/u/{bookId}", extra))
+        out.append(ops.op("get", "/u/{bookId}/v/{page-no}", extra))
     for bk in ops.BODY_KINDS:
         for req in (False, True):
             for extra in ([], [P("q", "query", False, "string")], [P("X-H", "header", True, "string")],
